@@ -2,7 +2,7 @@
    Statements about the RN instance of Model/Pbox.v (frechet_op), for any number of steps n,
    every selection of one point per focal step and every permutation coupling. *)
 From Coq Require Import Reals Lra List Permutation.
-From PUN Require Import Base.Num Base.Sort Model.Interval Model.Pbox Proofs.ListR Proofs.PboxWF Proofs.Frechet Proofs.Tight Proofs.Encl Model.ArrayOps Gen.GenKernels Proofs.Kernels.
+From PUN Require Import Base.Num Base.Sort Model.Interval Model.Pbox Proofs.ListR Proofs.PboxWF Proofs.Frechet Proofs.Tight Proofs.Encl Model.ArrayOps Gen.GenKernels Proofs.Kernels Model.PboxArith Gen.GenGlue Proofs.Glue.
 From Coq Require Import Lia.
 Import ListNotations.
 Open Scope R_scope.
@@ -129,6 +129,12 @@ Theorem C02_kernel_is_translated (op : R -> R -> R) (XL XR YL YR : list R) :
   gen_frechet_op RN op XL XR YL YR = frechet_op RN op XL XR YL YR.
 Proof. exact (gen_frechet_op_is_model RN op XL XR YL YR). Qed.
 
+(* TIE: the default product (sign routing, negation route, zero-straddling route with the naive bound, the Balch product and their
+   imposition) IS the function translated from pba/pbox_abc.py on every run; whatever it returns is well formed (Proofs/WFExpr.v) *)
+Theorem C02_product_is_translated (N : Num) (steps : nat) (p_lo p_hi : N) (p q : pbox N) :
+  pmul N steps p_lo p_hi DF p q = gen_frechet_pbox_mul N steps p_lo p_hi mul_fuel p q.
+Proof. exact (frechet_mul_is_translated N steps p_lo p_hi p q). Qed.
+
 (* non-vacuity: a two-step instance with the swapping coupling *)
 Example C02_ex : nth 0 (fst (frechet_op RN Rplus [1; 2] [2; 3] [10; 20] [11; 21])) 0 = 11 /\
                  nth 1 (snd (frechet_op RN Rplus [1; 2] [2; 3] [10; 20] [11; 21])) 0 = 24.
@@ -152,3 +158,4 @@ Print Assumptions C02_encloses_perfect.
 Print Assumptions C02_encloses_opposite.
 Print Assumptions C02_encloses_independent.
 Print Assumptions C02_kernel_is_translated.
+Print Assumptions C02_product_is_translated.
